@@ -6,6 +6,7 @@ import (
 	"encoding/json"
 	"fmt"
 	"math"
+	"reflect"
 	"sort"
 	"strconv"
 	"strings"
@@ -426,7 +427,11 @@ func c08Job(t *testing.T, raw json.RawMessage) (any, error) {
 				req := &cd.ServiceUsageRequest{SessionId: "rate-1", OriginHost: "verif-client", OriginRealm: "go-diameter", DestinationRealm: "go-diameter", DestinationHost: "server",
 					UserName: datatype.OctetString("CHF"), ActualTime: datatype.Time(time.Now()),
 					SubscriptionId: &cd.SubscriptionId{SubscriptionIdType: cd.END_USER_IMSI, SubscriptionIdData: datatype.UTF8String(imsi)},
-					ServiceRating:  &cd.ServiceRating{ServiceIdentifier: 1, RequestSubType: sub, ConsumedUnits: datatype.Unsigned32(consumed), MonetaryQuota: datatype.Unsigned32(quota)}}
+					ServiceRating:  &cd.ServiceRating{ServiceIdentifier: 1, RequestSubType: sub}}
+				// numeric members are set by reflection so that a change of their integer width does not break the harness build
+				srv := reflect.ValueOf(req.ServiceRating).Elem()
+				srv.FieldByName("ConsumedUnits").SetUint(uint64(consumed))
+				srv.FieldByName("MonetaryQuota").SetUint(uint64(quota))
 				m, err := cli.exchange(charging_code.ServiceUsageMessage, req)
 				if err != nil {
 					return nil, err.Error()
@@ -440,8 +445,37 @@ func c08Job(t *testing.T, raw json.RawMessage) (any, error) {
 				}
 				return &sua, ""
 			}
+			// a request that names no IMSI subscriber (absent Subscription-Id, or an NAI) right after a rated one:
+			// it may stay unanswered, but it must not be rated with the previous subscriber's tariff
+			foreign := func(after string) {
+				for _, mode := range []string{"absent", "nai"} {
+					cli, err := dialPeer("127.0.0.1:3868", "SUA")
+					if err != nil {
+						return
+					}
+					req := &cd.ServiceUsageRequest{SessionId: "rate-x", OriginHost: "verif-client", OriginRealm: "go-diameter", DestinationRealm: "go-diameter", DestinationHost: "server",
+						ServiceRating: &cd.ServiceRating{ServiceIdentifier: 1, RequestSubType: cd.REQ_SUBTYPE_DEBIT}}
+					reflect.ValueOf(req.ServiceRating).Elem().FieldByName("ConsumedUnits").SetUint(1000)
+					if mode == "nai" {
+						req.SubscriptionId = &cd.SubscriptionId{SubscriptionIdType: cd.END_USER_NAI, SubscriptionIdData: "user@example.org"}
+					}
+					m, _ := cli.exchange(charging_code.ServiceUsageMessage, req)
+					cli.conn.Close()
+					out.Requests++
+					if m == nil {
+						continue
+					}
+					var sua cd.ServiceUsageResponse
+					if m.Unmarshal(&sua) == nil && sua.ServiceRating != nil && (sua.ServiceRating.Price != 0 || sua.ServiceRating.MonetaryTariff != nil) {
+						find("unknown-subscriber-rated-with-foreign-tariff", fmt.Sprintf("after rating %s: a debit request with Subscription-Id %s was answered with price %d (session %q)", after, mode, sua.ServiceRating.Price, sua.SessionId))
+					}
+				}
+			}
 			for i, cost := range a.Costs {
 				imsi := fmt.Sprintf("20893000000%04d", i)
+				if i == 0 {
+					defer foreign(fmt.Sprintf("subscriber %s (unit cost %q)", imsi, cost))
+				}
 				cls := costClass(cost)
 				var u uint64
 				if cls == "integer" {
